@@ -46,7 +46,19 @@ func builtinHistories(thorough bool) []*History {
 			op("close", 0), reopen(o), op("get", 0), op("get", 1), op("add", 1), op("close", 0), reopen(o), op("get", 1), op("close", 0))
 		// panics: invalid on a trusted block; second invalid on a written block
 		add("invalid-on-trusted-panics", abc, reopen(o), opf("add", 0, true), op("invalid", 0))
-		add("invalid-twice-panics", abc, reopen(o), op("add", 0), op("idle", 0), op("invalid", 0), op("invalid", 0))
+		// a second BlockInvalid of a written block used to panic with db.mutex held (setBlockFlag set `trusted` for either flag)
+		add("invalid-twice", abc, reopen(o), op("add", 0), op("add", 1), op("idle", 0), op("invalid", 0), op("get", 0), op("invalid", 0), op("get", 1), op("trusted", 0), op("get", 0),
+			op("close", 0), reopen(o), op("get", 1), op("get", 0), op("close", 0))
+		// marked invalid while queued, then the same hash is stored again with other bytes / height / txcount: the stale
+		// queue entry used to be written in place of the new block
+		{
+			x1 := BlockSpec{Seed: 21, Len: 150, Kind: "rand", Height: 700, TxCount: 3, HdrSeed: 77}
+			x2 := BlockSpec{Seed: 22, Len: 190, Kind: "mixed", Height: 701, TxCount: 5, HdrSeed: 77}
+			add("readd-after-queued-invalid", []BlockSpec{x1, x2, blk(3, 300, "rand")}, reopen(o), op("add", 0), op("invalid", 0), op("get", 0), op("add", 1), op("get", 1), op("add", 2),
+				op("idle", 0), op("get", 1), op("close", 0), reopen(o), op("get", 1), opf("len", 1, true), op("get", 2), op("close", 0))
+			add("queued-invalid-never-written", []BlockSpec{x1, blk(3, 300, "rand")}, reopen(o), op("add", 0), op("add", 1), op("invalid", 0), op("idle", 0), op("get", 0),
+				op("close", 0), reopen(o), op("get", 0), op("get", 1), op("close", 0))
+		}
 		add("unknown-hash", abc, reopen(o), op("get", -1), opf("len", -1, true), op("trusted", -1), op("invalid", -1), op("idle", 0), op("close", 0))
 		// cache of one entry, unwritten blocks are never evicted
 		o1 := Opts{MaxCached: 1, Compress: c}
@@ -65,6 +77,14 @@ func builtinHistories(thorough bool) []*History {
 				}
 			}
 		}
+	}
+	// every block of the newer data files is invalid at the restart: LoadBlockIndex falls back to a data file number that
+	// was already moved to oldat/ (backup) — the block kept there must stay readable
+	{
+		b3 := []BlockSpec{blk(31, 200, "rand"), blk(32, 200, "rand"), blk(33, 200, "rand"), blk(34, 150, "rand")}
+		ob := Opts{MaxCached: 1, MaxFile: 200, Keep: 1, Backup: true}
+		add("backup-fallback-after-invalid", b3, reopen(ob), op("add", 0), op("add", 1), op("add", 2), op("idle", 0), op("get", 0), op("invalid", 1), op("invalid", 2), op("close", 0),
+			reopen(ob), op("get", 0), op("add", 3), op("idle", 0), op("get", 0), op("get", 3), op("close", 0), reopen(ob), op("get", 0), op("get", 3), op("close", 0))
 	}
 	// options changed across a restart (compression toggled, keep introduced)
 	add("options-change", abc, reopen(Opts{MaxCached: 1, Compress: true, MaxFile: 150}), op("add", 0), op("add", 1), op("close", 0),
